@@ -191,7 +191,6 @@ fn limit_edge_m<const M: usize>(args: &Args, rep: &mut Report) {
         crate::ledger::reset();
         rep.ctx = ctx.to_string();
         let mut s = Sim::<M>::new(hseed, rep, None, false)?;
-        s.limit_mode = 2;
         if let Some(l) = limit {
             s.op_set_limit(rep, Some(l));
         }
